@@ -8,7 +8,7 @@ META = dict(
                'html.c: mmd_print_string_html (EPUB OPF/nav text, XHTML body), mmd_export_link_html, mmd_export_image_html'],
     stubs=['d_string.c -> ds_model with a small %s/%d formatter', 'tree exporters for link text -> empty'],
     assumptions=['text without control characters (the property excludes them)'],
-    outside=['well-formedness of complete documents (balanced elements across the writer switch)', 'EPUB/ODT member generation beyond the escaped strings', 'verbatim (raw/math) exporters: need lexer composition, see DESIGN'],
+    outside=['well-formedness of complete documents (element balance is decided per block-level case, not across cases)', 'ODT/EPUB package members other than the OPF and navigation documents', 'verbatim (raw/math) exporters beyond the literal-token check'],
 )
 
 def gen_lit_table(spec, work, work_root):
@@ -64,6 +64,17 @@ def harnesses(tier):
                        units=[dict(src=unit, cflags=['-Dexit=verif_exit', '-Dfprintf=verif_fprintf'], remove=trees), 'repo:token.c', 'repo:stack.c', 'repo:object_pool.c', 'repo:char.c'],
                        unwind=14, object_bits=11, timeout=900, mem_gb=6, functional=True, replay=False, nobody_ok=['verif_exit', 'verif_fprintf'],
                        desc='%s: delimiter tokens with literal text are escaped in verbatim context (no raw <, no bare &)' % fn))
+    # element balance of the block-level cases of the two XML-producing writers (the harnesses of C04's nesting half; EPUB's main.xhtml is the HTML writer's output)
+    from checks import C04
+    for h in C04.nesting(tier):
+        if h['name'].startswith('c04_nesting_html_') or h['name'].startswith('c04_nesting_opendocument_'):
+            h = dict(h); h['name'] = 'c08' + h['name'][3:]
+            hs.append(h)
+    hs.append(dict(name='c08_epub_members', src='c08/epubmeta.c', defs=dict(DS_SINK_PTR=1), pool_off=True,
+                   units=[dict(src='repo:epub.c', cflags=['-include', 'verif_uthash.h'], remove=['epub_export_nav']), 'common/ds_sink.c'],
+                   nobody_ok='*', ignore_failed=['no-body'], unwind=120, timeout=600, mem_gb=4, functional=True, replay=False,
+                   bounds='package document and navigation document; each of uuid/title/author/language/date present or absent with an arbitrary value (tracked by identity); all languages',
+                   desc='epub.c epub_package_document / epub_nav: metadata values reach the member only through the escaper; the member is balanced XML'))
     hs.append(dict(name='c08_raw_gate', src='c08/rawfilter.c', defs=dict(PL=7 if tier == 'quick' else 9),
                    units=[dict(src='repo:writer.c', cflags=['-include', 'vh_libc.h'])],
                    unwind=12, timeout=900, mem_gb=6, functional=True,
